@@ -17,6 +17,9 @@ def sF_sel (t : Task) : Event → Option Nat
   | .pubW _ ds => if ds.task == t then some ds.out else none
   | _ => none
 
+theorem sF_sel_noticeOf (t : Task) : noticeOf t = sF_sel t := by
+  funext ev; cases ev <;> rfl
+
 theorem sF_sel_eq (t : Task) :
     (fun ev : Event => match ev with
       | .pubW _ ds => if ds.task == t then some ds.out else none
